@@ -94,7 +94,10 @@ def gen_case(rng, tier):
                 e, ids = edit(rng, ids)
                 evs.append(e)
         else:
-            if r < p_edit_inflight:
+            if rng.random() < 0.03:
+                evs.append("c")                       # ares_cancel
+                pending_guess = 0
+            elif r < p_edit_inflight:
                 e, ids = edit(rng, ids)               # edit while attempts are in flight
                 evs.append(e)
             elif r < p_edit_inflight + p_fail * (1 - p_edit_inflight):
